@@ -288,6 +288,29 @@ func typedInputs(rg *rng, level int) []robustInput {
 			}
 		}
 	}
+	// every table_id value at a section start, behind pointer fields 0 / 1 / 3 and behind a skipped section, on a DVB PID, a PMT PID and PID 0
+	for _, pid := range []int{0x11, 0x1000, 0} {
+		for _, ptr := range []int{0, 1, 3} {
+			var sw []byte
+			sw = append(sw, packetise(0, patFor(0x1000), rg.intn(16))...)
+			cc := rg.intn(16)
+			for tid := 0; tid < 256; tid++ {
+				unit := []byte{byte(ptr)}
+				for j := 0; j < ptr; j++ {
+					unit = append(unit, 0xff)
+				}
+				if tid%2 == 1 { // a skipped (recognised, undecoded) section first
+					unit = append(unit, 0x72, 0x00, 0x02, 0xaa, 0xbb)
+				}
+				body := rg.bytes(rg.pick(0, 4, 9, 20))
+				unit = append(unit, byte(tid), 0xb0, byte(len(body)))
+				unit = append(unit, body...)
+				sw = append(sw, packetise(pid, unit, cc)...)
+				cc++
+			}
+			ins = append(ins, robustInput{fmt.Sprintf("tidsweep-pid%d-ptr%d", pid, ptr), sw})
+		}
+	}
 	return ins
 }
 
@@ -314,6 +337,9 @@ func runRobust(sc *streamScenario, rec *recorder, level int) {
 			for k := 0; k < 3; k++ {
 				cfgs = append(cfgs, all[rg.intn(len(all))])
 			}
+		}
+		if len(in.name) > 8 && in.name[:8] == "tidsweep" {
+			cfgs = []robustCfg{{188, "bytes", "data"}, {-1, "bytes", "data"}, {188, "bufio", "packet"}}
 		}
 		for _, c := range cfgs {
 			input := in.b
